@@ -1008,7 +1008,7 @@ impl AWorker {
         }
     }
 
-    /// C06 rule 2: a file grows only if no free slot of a suitable size existed
+    /// C06 rule 2: a file grows only if no free slot of a suitable size existed (see check_alloc)
     fn check_alloc(&self, cfg: &ACfg, idx: usize, dp: &Decoded, ds: &Decoded, f: &mut Findings) {
         for (what, fp, fs) in [("key", &dp.keyf, &ds.keyf), ("val", &dp.valf, &ds.valf)] {
             f.c("alloc_rule_evaluations", 1);
@@ -1463,5 +1463,53 @@ pub fn replay(config: &[u8], case: &[u8]) -> i32 {
             println!("REPLAY VIOLATION [{}]: {}", f.2, f.3);
         }
         1
+    }
+}
+
+
+/// the statistics calls of a live handle against an independently decoded image (first mismatch)
+pub fn stats_vs_decoded<T: Kt>(m: &mut FileDbMap<T>, d: &Decoded) -> Option<String> {
+    let counts = |name: &str, r: Out<Vec<(u32, u64)>>, exp: Vec<(u32, u64)>| -> Option<String> {
+        match r {
+            Out::Ok(got) if got == exp => None,
+            Out::Ok(got) => Some(format!("{name} reports {:?} but the files hold {:?}", got, exp)),
+            other => Some(format!("{name} {}", other.failed().unwrap_or_default())),
+        }
+    };
+    let hist = |name: &str, r: Out<String>, exp: Vec<(u64, u64)>| -> Option<String> {
+        match r {
+            Out::Ok(s) => {
+                if parse_stats(&s) != exp {
+                    Some(format!("{name} reports {s} but the files hold {:?}", exp))
+                } else {
+                    None
+                }
+            }
+            other => Some(format!("{name} {}", other.failed().unwrap_or_default())),
+        }
+    };
+    if let Some(e) = counts("count_of_free_key_piece", guard(|| m.count_of_free_key_piece()), d.free_counts(true)) {
+        return Some(e);
+    }
+    if let Some(e) = counts("count_of_free_value_piece", guard(|| m.count_of_free_value_piece()), d.free_counts(false)) {
+        return Some(e);
+    }
+    if let Some(e) = hist("key_piece_size_stats", guard(|| m.key_piece_size_stats().map(|s| s.to_string())), d.key_size_hist()) {
+        return Some(e);
+    }
+    if let Some(e) = hist("value_piece_size_stats", guard(|| m.value_piece_size_stats().map(|s| s.to_string())), d.val_size_hist()) {
+        return Some(e);
+    }
+    if let Some(e) = hist("key_length_stats", guard(|| m.key_length_stats().map(|s| s.to_string())), d.key_len_hist()) {
+        return Some(e);
+    }
+    if let Some(e) = hist("value_length_stats", guard(|| m.value_length_stats().map(|s| s.to_string())), d.val_len_hist()) {
+        return Some(e);
+    }
+    let exp = (d.nonempty, (d.nonempty * 1000 / d.n.max(1)) as u32);
+    match guard(|| m.htx_filling_rate_per_mill()) {
+        Out::Ok(got) if got == exp => None,
+        Out::Ok(got) => Some(format!("htx_filling_rate_per_mill reports {:?} but {} of {} buckets are non-empty in the files", got, d.nonempty, d.n)),
+        other => Some(format!("htx_filling_rate_per_mill {}", other.failed().unwrap_or_default())),
     }
 }
